@@ -150,7 +150,7 @@ type c02Gen struct {
 }
 
 var c02Words = []string{"alpha", "beta", "gamma", "x", "42", "lorem ipsum", "A-Z", "q.e.d", "semi;colon", "amp and", "tail;"}
-var c02Refs = []string{"&lt;", "&gt;", "&amp;", "&quot;", "&#39;", "&#60;", "&#x26;", "&copy;", "&amp;lt;", "&amp;amp;", "&lt;b&gt;", "&amp;copy;", "&#38;#60;", "&eacute;", "&quot;&amp;", "&lt;&amp;"}
+var c02Refs = []string{"&lt;", "&gt;", "&amp;", "&quot;", "&#39;", "&#60;", "&#x26;", "&copy;", "&amp;lt;", "&amp;amp;", "&lt;b&gt;", "&amp;copy;", "&#38;#60;", "&eacute;", "&quot;&amp;", "&lt;&amp;", "&nbsp;", "&nbsp;", "a&nbsp;b", "&#160;"}
 
 func (g *c02Gen) text() string {
 	var b strings.Builder
